@@ -5,6 +5,18 @@ HERE = os.path.dirname(os.path.dirname(os.path.abspath(__file__)))
 ALL = ['C%02d' % i for i in range(1, 21)]
 
 CHECKS = {
+ 'C07': dict(cat='model_checking', engine='gen+mirsym',
+   text='Seeded random well-formed wowm programs over the features the corpus uses (vf/randwowm.py) replace single-message files of a scratch copy; the REAL generator is run on it, the emitted Rust is compiled, and the C01 machinery (MIR symbolic execution + z3: read -> write -> size over canonical encodings with all field values symbolic, per covered shape) is run on every new message with the scratch tree as the repository. Programs whose generated code does not compile are reported (classified by the construct the compiler trips over) and removed, the rest is regenerated and checked.',
+   note='Per program the claim is C01\'s (same bounds); the set of programs is SAMPLED (10 quick / 48 thorough per VERIF_SEED), not exhaustive: a pass says nothing about programs not drawn. self.size, masks and compressed members are not generated. Four generator defects found this way are recorded as known findings (see known_findings.json).',
+   technique='real generator on random programs + symbolic execution of the generated code\'s MIR into SMT (z3) per program and shape', ref='DESIGN.md 4/C07'),
+ 'C16': dict(cat='model_checking', engine='gen+mirsym',
+   text='(A, solver) WorldVersion::overlaps/covers and LoginVersion::overlaps/fullfills are executed from the generator\'s MIR with both arguments fully symbolic (variant and all fields); z3 decides for all pairs of versions that overlaps <=> the denoted build sets intersect, covers/fullfills <=> superset (quantified over all builds), symmetry, covers => overlaps. (B, fault injection) each of 17 static rules is violated at several sites of the real corpus (top level, structs used by messages, inside if / optional blocks, tag_all files, paste_versions objects) in a scratch copy and the real generator must stop with that rule\'s exit status; the clean tree must be accepted.',
+   note='Only (A) is a solver claim. (B) runs 51 (quick) / ~200 (thorough) mutated trees through the real generator binary; sites are chosen with VERIF_SEED. Rules without an exit status of their own (plain panics) are not injected; the lookup code that uses the relations (has_version_intersections over vectors) is exercised only through (B).',
+   technique='symbolic execution of the generator\'s MIR into SMT (z3, quantified set semantics) + fault injection through the real generator', ref='DESIGN.md 4/C16'),
+ 'C19': dict(cat='model_checking', engine='cfgsat',
+   text='The sources of the three libraries are scanned into a configuration model (vf/cfgscan.py): every module, item definition, use tree and path reference with the cfg condition under which it is compiled, plus the feature implications of the manifests (optional dependencies, dep/feature, features wow_world_messages switches on in wow_world_base). z3 decides for ALL feature assignments at once that every resolved reference is compiled only when its target is, and that code naming an optional dependency or a tokio_/astd_ method is compiled only when that is available. A satisfying assignment is a feature set; it is replayed with cargo check on a scratch copy and reported only if that build fails.',
+   note='Restricted to the build half of the property and to what the scanner resolves (about 95% of ~66,000 references; the rest is counted, not judged). No macro expansion or type resolution. "Behaves identically in two configurations" is not decided (only cfg attributes inside function bodies are counted: none). cfg(test) is false.',
+   technique='SAT/SMT (z3) over a cfg model extracted from the sources: validity of cond(ref) => cond(target) for all feature sets; native cargo check replay', ref='DESIGN.md 4/C19'),
  'C17': dict(cat='model_checking', engine='gen+encode',
    text='The real generator is built and run on a scratch copy of the current tree; the C fragment it emits for the dissectors (parser.txt) is parsed and interpreted symbolically (vf/wsh.py) over the canonical encoding of every Vanilla world message and every login message version, one encoding per covered shape with all field values symbolic. Integers the dissector reads are z3 terms; every if/else-if condition and loop bound must be decided by the shape constraints (solver implication: the dissector branches exactly as the definition), every read must start at a field boundary with the field width and endianness, string/packed-guid/mask helpers must meet a field of their type, and the cursor must equal the body length at the final break. hf_ fields, variables and enumerators referenced must be declared/registered in the sibling fragments.',
    note='The fragment is interpreted, not compiled into Wireshark: the C subset the printer emits is modelled (32-bit unsigned variables, ==, !=, &, ||, <, for/while/switch); the hand-written helper functions are taken to consume one value of their type. Shapes as C01 (counts/lengths <= 2/3, cap 8 quick / 60 thorough per message). Messages with compressed payloads or UpdateMask members are outside (listed as inconclusive in the evidence).',
@@ -116,6 +128,8 @@ def main():
              'kind_free_text': 'symbolic executor for rustc\'s monomorphised MIR (dumped by tools/mirdump, a rustc_public driver built with the nightly toolchain) producing z3 bit-vector queries; std containers modelled at API level (vf/models.py); independent wowm reader (vf/wowm.py) as the oracle; counterexamples replayed on native builds'},
             {'name': 'gen+encode', 'path': 'vf/gen.py', 'serves_properties': [p for p in ALL if 'gen' in CHECKS.get(p, {}).get('engine', '')],
              'kind_free_text': 'the real generator (wow_message_parser) built and run on a scratch copy of the current tree; its outputs are compared with the independent wowm reader / canonical encoder (vf/wowm.py, vf/encode.py) by z3'},
+            {'name': 'cfgsat', 'path': 'vf/cfgscan.py', 'serves_properties': ['C19'],
+             'kind_free_text': 'cfg/feature model of the library sources as z3 boolean formulas; counterexamples are feature sets replayed with cargo check'},
             {'name': 'kani', 'path': 'vf/kani.py', 'serves_properties': [p for p in ALL if 'kani' in CHECKS.get(p, {}).get('engine', '')],
              'kind_free_text': 'Kani 0.68 / CBMC 6.11 over the compiled crates; harness crates generated under work/ with path dependencies on /repo'},
         ],
